@@ -10,7 +10,10 @@ MANIFEST = dict(
          "allowance), C06_ledger_is_in_flight_value (the ledger the check runs on is the max/min summary of the current "
          "commitments of each channel, also after a restart) and C06_unbacked_refused (an accepted update with outgoing value for "
          "an unapproved, never seen hash is covered by incoming value in the same update).  Invariant by induction over the "
-         "history; the validate-then-apply pairing of each request is modelled in code order.  The model is run against a real "
+         "history; the validate-then-apply pairing of each request is modelled in code order.  "
+         "C06_preimage_records_survive_restart / C06_fulfil_records_preimage: a payment record that carries a preimage (the one the "
+         "tolerated-hash rule reads and that decides which HTLC outputs are the node's to claim) has a record in every reachable "
+         "state and both survive every restart.  The model is run against a real "
          "Node with 2-3 real channels (real signatures, HTLCs, keysend approvals, restarts from the store) on every run and a "
          "monitor recomputes the in-flight values from the accepted commitment contents.  C06_balance_rule_is_source: the "
          "model's balance rule IS the source's - Gen/PaymentsGen.v is regenerated on every run from "
@@ -22,7 +25,7 @@ MANIFEST = dict(
     design="§4 C06",
     note=lib.TB + "Additionally trusted: tools/gen_rustfn.py and the meaning Base/Rust.v gives to the Rust constructs it reads.  Assumes approvals arrive before the payment is attempted (fresh_history) — the tolerance for uninvoiced hashes "
          "with an existing payment record (issue 331) is modelled and lies outside the property.  Amounts stay far below 2^64/1000 "
-         "(enforced by the commitment policy, C05); CLTV rules, issued invoices and the optional balance enforcement are not modelled.",
+         "(enforced by the commitment policy, C05); CLTV rules and the optional balance enforcement are not modelled (issued invoices: node-level model, C10).",
     technique="Coq proof (ledger invariant by induction over multi-channel histories; the balance rule translated from the Rust source on every run and proved equal to the model) + vm_compute correspondence with the Rust implementation",
 )
 
@@ -49,7 +52,7 @@ def run(res):
     # the same theorems (and C01-C03) over joint histories of the whole node, where the payment verdict of a
     # commitment update is computed from the ledger and the enforcement verdict from the counters
     lib.extra_props_stage(res, "Joint.v", ["J_C01_secret_needs_successor", "J_C02_signed_and_revoked_disjoint",
-                                          "J_C03_resign_same", "J_C06_no_overpay", "J_revoke_needs_payment_check", "J_nonvacuous"])
+                                          "J_C03_resign_same", "J_C06_no_overpay", "J_revoke_needs_payment_check", "J_C10_refused_changes_nothing", "J_nonvacuous"])
     cov = res.coverage
     n = 150 if quick else 1500
     r = lib.run_harness("pay", "run", res.seed, n, res.tier, timeout=3000)
